@@ -587,6 +587,9 @@ func (vc *VC) loopHead(fr *Frame, li *loopInfo, st *State, reach string) *State 
 		vc.assumeG(reach, g)
 	}
 	vc.autoFrameAssume(fr, n, reach)
+	if fr.parent == nil && fr.spec != nil {
+		vc.smoke(fr.oblName(fmt.Sprintf("smoke/loop%d", li.ordinal)), fr.defProps(), reach)
+	}
 	if li.spec != nil {
 		vc.runHints(fr, n, reach, li.spec.Hints, env1, fmt.Sprintf("loop%d", li.ordinal))
 		if li.spec.Decreases != nil {
@@ -996,6 +999,7 @@ func (vc *VC) execInstr(fr *Frame, st *State, reach string, instr ssa.Instructio
 			vc.assume(fmt.Sprintf("(= (clo_env_%d %s) %s)", i, ref, vc.valTerm(bv)))
 		}
 		fr.regs[x] = Val{T: x.Type(), S: ref, Fn: fn, Clo: x, CloFrame: fr}
+		vc.checkCaptured(fr, st, reach, x, fn)
 	case *ssa.MakeInterface:
 		xv := vc.operand(fr, x.X)
 		tid := vc.S.typeID(x.X.Type())
@@ -1501,4 +1505,74 @@ func (vc *VC) ssubFacts(r, s, lo, hi string) {
 	vc.assume("(=> " + ok + " (= (slen " + r + ") (- " + hi + " " + lo + ")))")
 	vc.assume("(=> (and " + ok + " (< " + lo + " " + hi + ")) (and (= (sat " + r + " 0) (sat " + s + " " + lo + ")) (= (sat " + r + " (- (- " + hi + " " + lo + ") 1)) (sat " + s + " (- " + hi + " 1)))))")
 	vc.assume("(=> (and (= " + lo + " 0) (= " + hi + " (slen " + s + "))) (= " + r + " " + s + "))")
+}
+
+// checkCaptured: facts a closure relies on about its (immutable) captured variables are established where it is created
+func (vc *VC) checkCaptured(fr *Frame, st *State, reach string, mc *ssa.MakeClosure, fn *ssa.Function) {
+	key := vc.P.fnKeys[fn]
+	for _, spec := range vc.P.specs[key] {
+		if spec.Variant != "" {
+			continue
+		}
+		for i, c := range spec.Captured {
+			c := c
+			// immutability of the captured variables mentioned
+			ok := true
+			walkExpr(c.E, func(x Expr) {
+				if id, is := x.(*Ident); is {
+					for bi, fv := range fn.FreeVars {
+						if fv.Name() == id.Name && bi < len(mc.Bindings) {
+							if al, isA := mc.Bindings[bi].(*ssa.Alloc); isA {
+								if !vc.immutableAfter(al) {
+									ok = false
+								}
+							}
+						}
+					}
+				}
+			})
+			if !ok {
+				vc.specErrors = append(vc.specErrors, fmt.Sprintf("%s: captured clause of %s mentions a variable that is assigned more than once", fr.key, key))
+				continue
+			}
+			env := vc.envFor(fr, st)
+			g := vc.safeTr(fr, func() string { return env.trBool(c.E) }, c.Src)
+			name := c.Name
+			if name == "" {
+				name = fmt.Sprint(i + 1)
+			}
+			vc.oblige(fr.oblName(fmt.Sprintf("captured@%s/%s", shortKey(key), name)), "captured", clauseProps(c.Props, append([]string{"C08"}, spec.Props...)), reach, g, "fact about captured variables required by "+key+": "+c.Src)
+		}
+	}
+}
+
+// immutableAfter: the variable is stored exactly once in its function and never through a closure
+func (vc *VC) immutableAfter(al *ssa.Alloc) bool {
+	n := 0
+	for _, b := range al.Parent().Blocks {
+		for _, in := range b.Instrs {
+			if s, ok := in.(*ssa.Store); ok && s.Addr == al {
+				n++
+			}
+		}
+	}
+	var visit func(f *ssa.Function) bool
+	visit = func(f *ssa.Function) bool {
+		for _, an := range f.AnonFuncs {
+			for _, b := range an.Blocks {
+				for _, in := range b.Instrs {
+					if s, ok := in.(*ssa.Store); ok {
+						if fv, ok := s.Addr.(*ssa.FreeVar); ok && fv.Name() == al.Comment {
+							return false
+						}
+					}
+				}
+			}
+			if !visit(an) {
+				return false
+			}
+		}
+		return true
+	}
+	return n <= 1 && visit(al.Parent())
 }
